@@ -638,7 +638,8 @@ class MigrationContext:
 
         if self.as_sql and not head_maintainer.heads:
             assert self.connection is not None
-            self._version.drop(self.connection)
+            with self.begin_transaction(_per_migration=True):
+                self._version.drop(self.connection)
 
     def _in_connection_transaction(self) -> bool:
         try:
